@@ -5,6 +5,7 @@ import (
 	"errors"
 	"fmt"
 	"time"
+	"strings"
 	"unicode/utf8"
 
 	"github.com/prometheus/client_golang/prometheus"
@@ -314,4 +315,36 @@ func VerifC20_Truncate() {
 		vfAssert("runes-flag-says-cut", cut2)
 		vfReach("cut-runes")
 	}
+}
+
+// VerifC20_TruncateLong: byte truncation of long multi-byte text (more runes than the
+// runtime's stack buffer for []rune conversions holds, so the rune slice has no spare
+// capacity): 40 copies of a 1-4 byte character behind up to two arbitrary leading
+// bytes, for limits around every interesting point (tiny, below / at / above the
+// rune count, just below the byte length). Never a panic, never above the limit,
+// always valid UTF-8, unchanged iff it fits.
+//
+//vf:quick unwind=120 decisions=900 paths=400000 arith=bv steps=20000000
+//vf:thorough unwind=120 decisions=1200 paths=4000000 arith=bv steps=60000000
+//vf:expect reach=fits reach=cut
+func VerifC20_TruncateLong() {
+	unit := []string{"a", "é", "€", "😀"}[vfChoice("unit", 4)]
+	head := vfString("head", vfChoice("headLen", 3))
+	vfAssume(utf8.ValidString(head))
+	s := head + strings.Repeat(unit, 40)
+	limits := []int{0, 2, 3, 4, 7, 39, 40, 41, 43, 44, 45, 46, 100, 120, len(s) - 2, len(s) - 1, len(s), len(s) + 1}
+	limit := limits[vfChoice("limit", len(limits))]
+	out, cut := TruncateInBytes(s, limit)
+	vfAssert("bytes-within-limit", len(out) <= limit || (!cut && out == s))
+	vfAssert("bytes-valid-utf8", utf8.ValidString(out))
+	if len(s) <= limit {
+		vfAssert("bytes-unchanged-when-it-fits", out == s && !cut)
+		vfReach("fits")
+	} else {
+		vfAssert("bytes-flag-says-cut", cut && len(out) <= limit)
+		vfReach("cut")
+	}
+	out2, cut2 := TruncateInRunes(s, limit)
+	vfAssert("runes-within-limit", utf8.RuneCountInString(out2) <= limit || (!cut2 && out2 == s))
+	vfAssert("runes-valid-utf8", utf8.ValidString(out2))
 }
